@@ -95,7 +95,7 @@ def run(ctx):
     mc = modelcheck.run_parser_model(ctx, ["C10"], cbfail_ok=False)      # transaction bound + structure; pairing itself is judged on traces
     scns = scenarios(ctx)
     import drift
-    drift.with_steps(scns, every=1 if not ctx.quick else max(1, -(-len(scns) // 800)))
+    drift.with_steps(scns, every=max(1, -(-len(scns) // (800 if ctx.quick else 8000))))
     exe = vlib.build(ctx, "san", ["rec"])["rec"]
     files = streams.run_rec(ctx, exe, scns, "c04")
     execs, events, viols = streams.judge_obs(ctx, files, PROPS)
